@@ -581,3 +581,11 @@ V("R2-reduce-iadd-pairs-ok", ["C09", "C12", "C04"], "factor_analysis", _RI_OLD, 
 V("R2-gmm-mstep-pairs", ["C02", "C03", "C04"], "gmm", "    statistics = functools.reduce(operator.iadd, statistics)", "    statistics = list(statistics)\n    while len(statistics) > 1:\n        statistics = [operator.iadd(a, b) for a, b in zip(statistics[0::2], statistics[1::2])]\n    statistics = statistics[0]", "GMM M-step folds the per-block statistics by neighbour pairs and drops the odd tail")
 V("R2-abs-threshold-isclose", ["C15", "C06"], "kmeans", "        distance = self.average_min_distance\n", "        distance = self.average_min_distance\n        if np.isclose(distance, 0.0):\n            break\n", "early stop on an absolute tolerance of the squared distance (unit dependent)")
 V("R2-abs-threshold-literal", ["C15", "C06"], "kmeans", "        distance = self.average_min_distance\n", "        distance = self.average_min_distance\n        if distance < 1e-08:\n            break\n", "early stop below an absolute squared-distance literal (unit dependent)")
+V("R2-global-centroid-cache", ["C16"], "kmeans", "def get_centroids_distance(", "_INITIAL = {}\n\n\ndef _remember(key, value):\n    _INITIAL[key] = value\n    return value\n\n\ndef get_centroids_distance(", "module-level dictionary filled by a function: results can depend on what was trained before")
+V("R2-module-constant-table", ["C16"], "kmeans", "def get_centroids_distance(", "_INIT_METHODS = {'random': 0, 'k-means++': 1}\n\n\ndef _method_index(name):\n    return _INIT_METHODS[name]\n\n\ndef get_centroids_distance(", "module-level constant table that is only read", kind="benign")
+V("R2-legacy-name-order", ["C18"], "gmm", "            for i in range(n_gaussians):\n                gaussian_group = hdf5[f'm_gaussians{i}']\n", "            for name, gaussian_group in hdf5.items():\n                if not name.startswith('m_gaussians'):\n                    continue\n", "legacy per-component groups visited in name order (m_gaussians10 before m_gaussians2)")
+V("R2-legacy-index-format", ["C18"], "gmm", "                gaussian_group = hdf5[f'm_gaussians{i}']\n", "                gaussian_group = hdf5['m_gaussians' + str(i)]\n", "group key built by concatenation", kind="benign")
+V("R2-init-weights-stale-counts", ["C20"], "gmm", "            self.variances, self.weights = kmeans_machine.get_variances_and_weights_for_each_cluster(data)", "            self.variances, w_ = kmeans_machine.get_variances_and_weights_for_each_cluster(data)\n            counts = np.bincount(kmeans_machine.predict(data[: len(data) // 2]), minlength=self.n_gaussians)\n            self.weights = counts / counts.sum()", "initial weights from the assignments of half of the data")
+V("R2-init-unpacked-first", ["C20"], "gmm", "            self.variances, self.weights = kmeans_machine.get_variances_and_weights_for_each_cluster(data)", "            v_, w_ = kmeans_machine.get_variances_and_weights_for_each_cluster(data)\n            self.variances = v_\n            self.weights = w_", "same statistics unpacked into locals first", kind="benign")
+V("R2-iadd-alias-fastpath", ["C19", "C02"], "gmm", "        self.log_likelihood += other.log_likelihood\n        self.t += other.t\n", "        if self.t == 0:\n            self.init_fields(other.log_likelihood, other.t, other.n, other.sum_px, other.sum_pxx)\n            return self\n        self.log_likelihood += other.log_likelihood\n        self.t += other.t\n", "empty accumulator adopts the right operand's arrays: the next += corrupts that operand")
+V("R2-iadd-copy-fastpath", ["C19", "C02"], "gmm", "        self.log_likelihood += other.log_likelihood\n        self.t += other.t\n", "        if self.t == 0:\n            self.init_fields(other.log_likelihood, other.t, other.n.copy(), other.sum_px.copy(), other.sum_pxx.copy())\n            return self\n        self.log_likelihood += other.log_likelihood\n        self.t += other.t\n", "empty accumulator takes copies of the right operand's arrays", kind="benign")
